@@ -7,10 +7,12 @@ ValidityMonotone is checked by TLC as an action property on every validated trac
 valid, the run manifest's all_valid and ResultsManager.is_valid(name) to be the conjunction of the members' verdicts.
 (3) fail_all() in groups: generated groups whose members raise the cross-path signals (fail_all, stop_all, skip_all, advance_all) are run
 with all six methods and validated by the joint machine spec/GroupRun.tla; C04 judges the members' validity per line, their final
-verdicts and the run manifest's all_valid (the other fields of the joint run are reported in the evidence, not judged here)."""
+verdicts and the run manifest's all_valid (the other fields of the joint run are reported in the evidence, not judged here).
+The same machine has a closed instance (spec/MC_GroupRun.tla): a pool of small groups is explored exhaustively by TLC (GroupValidityMonotone,
+FailAllReaches, StopAllIsFinal, YieldedInOrder, MemberInStep) and every terminal state is replayed into the real CsvPaths."""
 import json
 
-from checks import c09, runfam, mcrun, jointrun
+from checks import c09, runfam, mcrun, jointrun, mcgroup
 from lib import common, scratch
 from lib.tlc import MachineryError
 
@@ -47,7 +49,8 @@ def main(tier):
     n = 700 if tier == "quick" else 12000
     return runfam.run(PID, tier, groups=("core", "control", "validity"), judged=JUDGED, ncases=n, seed_salt=400,
                       pre=lambda rep: (aggregation(rep, tier), mcrun.run_pool(rep, tier, {"valid"}, PID),
-                                       jointrun.run(rep, tier, {"valid", "final_valid", "all_valid"}, PID, n=80 if tier == "quick" else 2500)))
+                                       jointrun.run(rep, tier, {"valid", "final_valid", "all_valid"}, PID, n=80 if tier == "quick" else 2500),
+                                       mcgroup.run_pool(rep, tier, {"valid", "allValid"}, PID)))
 
 
 def replay(path):
